@@ -217,7 +217,7 @@ class Scene:
         out = {}
         holes = self.holes if holes is None else holes
         for h, hole in sorted(holes.items()):
-            rec = {"names": None, "values": {}, "pgs": {}}
+            rec = {"names": None, "values": {}, "pgs": {}, "children": None}
             try:
                 names = list(hole.get_data_list())
             except Exception as exc:  # pylint: disable=broad-except
@@ -236,6 +236,7 @@ class Scene:
                             rec["values"][name] = {"several": [_tokens(d.values) for d in found]}
                 except Exception as exc:  # pylint: disable=broad-except
                     rec["values"][name] = outcome_of(exc)
+            rec["children"] = sorted(c.name for c in hole.children if hasattr(c, "values") and hasattr(c, "association"))
             try:
                 for pg in hole.property_groups or []:
                     props = []
@@ -247,6 +248,9 @@ class Scene:
                 rec["pgs"] = outcome_of(exc)
             out[h] = rec
         return out
+
+    def observe_group_children(self):
+        return sorted(self.slot_of(_brace(c.uid)) for c in self.group.children if hasattr(c, "get_data_list"))
 
     def observe_raw(self, handle=None, group_uid=None, with_attrs=False):
         """Raw datasets of the group read with plain h5py from the open file handle."""
